@@ -5,6 +5,8 @@ HISTORY-level theorems, i.e. invariants over every state reachable in the transi
 `ok`, envelopes `E-API` / `E-ErrNotApplied` / `E-SingleLeader` as built into the model).
 -/
 import FurikoModel.Proofs.JobCtlInvExamples
+import FurikoModel.Proofs.JobCtlInvNames
+import FurikoModel.Proofs.JobCtlPlanPass
 import FurikoModel.Props.C09
 import FurikoModel.Props.C11
 
@@ -80,56 +82,345 @@ example : ∃ c, (runActs Ex.s0 [.deliverJob, .work]).jobCache = some c ∧ c.jo
     (runActs Ex.s0 [.deliverJob, .work]).pods ≠ [] :=
   ⟨Ex.cachedOf (runActs Ex.s0 [.deliverJob, .work]), by decide +kernel, by decide +kernel, by decide +kernel⟩
 
-/-! ### `foreign_never_recorded`
+/-! ### `foreign_never_read`, `foreign_never_recorded` (repair of F22)
 
-Planned statement: a pod whose owner uid is not the Job's never has its name in the authoritative
-`status.tasks`.  FALSE on the model: refs are keyed by NAME and `getTaskForRef` (cache `Lister().Get`,
-live `Client().Get`) does not look at the owner, so a foreign object that takes the name of an already
-recorded task — after that task's pod vanished — is read as that task. -/
+Before the repair the planned statement "a pod that is not controlled by the Job is never recorded" was
+FALSE on the model (former witness `foreign_recorded_witness`): refs are keyed by NAME and `getTaskForRef`
+(cache `Lister().Get`, live `Client().Get`) did not look at the owner, so a foreign object that took the
+name of an already recorded task — after that task's pod vanished — was read as that task (a Succeeded
+foreign pod made the Job Finished / Success).  Since the repair every lookup tests the controller owner
+reference (`isControlledByJob`), and the positive theorems hold with ALL actions allowed, `createForeign`
+on ANY name included.  (The NAME of a recorded task stays listed — it was recorded for the Job's own
+pod — so the statement is about what is READ and what is ADDED, not about names in general.) -/
 
-/-- witness: `job-h-0` is recorded for the Job's own pod; the pod vanishes; a foreign pod (owner
-`other-uid`, phase Succeeded) is created under that name; after its events are delivered the next pass
-takes the foreign pod for the task and reports the Job Finished / Success. -/
-theorem foreign_recorded_witness :
+/-- `foreign_never_read` (every reachable state, all actions allowed; the Job value `rj` and the state
+`sp` the lookups run in are arbitrary): every task a pass of the controller (cached Job `jo`) reads for a
+recorded ref — `tasksForRefs` of `syncJobTasks`, and `finalizerTasks` of `handleFinishFinalizer`, i.e. the
+tasks that are refreshed, killed, force-deleted, deleted by the finalizer, and waited for — is the task of
+a pod (pod cache or server) that is CONTROLLED BY THE JOB.  A foreign pod is never read, whatever name
+it carries: its fields are never copied into a ref and no delete is issued on its behalf. -/
+theorem foreign_never_read {ok : Sys → Action → Prop} {j0 : JobObj} {s : Sys} (hr : Reach ok j0 s)
+    (jo : JobObj) (hc : s.jobCache = some jo) (sp : Sys) (rj : Job) :
+    (∀ t ∈ tasksForRefs sp jo rj.status.tasks, ∃ p, (p ∈ sp.podCache ∨ p ∈ sp.pods) ∧ p.ownerUid = some j0.uid ∧
+      podTask p = some t ∧ p.pod.name = t.name) ∧
+    (∀ t ∈ finalizerTasks sp jo rj, ∃ p, (p ∈ sp.podCache ∨ p ∈ sp.pods) ∧ p.ownerUid = some j0.uid ∧
+      podTask p = some t ∧ p.pod.name = t.name) := by
+  have hu : jo.uid = j0.uid := ((base_of_reach hr).seenOK jo (mem_seenVers_cache hc)).1.uid
+  have conf : ∀ t ∈ tasksForRefsConfirmed sp jo rj.status.tasks, ∃ p, (p ∈ sp.podCache ∨ p ∈ sp.pods) ∧
+      p.ownerUid = some j0.uid ∧ podTask p = some t ∧ p.pod.name = t.name := by
+    intro t ht
+    unfold tasksForRefsConfirmed at ht
+    obtain ⟨r, _, hg⟩ := List.mem_filterMap.mp ht
+    obtain ⟨p, hp, hpt, ho⟩ := getTaskForRefConfirmed_owned hg
+    refine ⟨p, ?_, hu ▸ ho, hpt, (podTask_ok hpt).2.symm⟩
+    rcases hp with h | h
+    · exact Or.inl (findPod_some h).1
+    · exact Or.inr (findPod_some h).1
+  refine ⟨?_, ?_⟩
+  · intro t ht
+    unfold tasksForRefs at ht
+    obtain ⟨r, _, hg⟩ := List.mem_filterMap.mp ht
+    obtain ⟨p, hp, hpt, ho⟩ := getTaskForRef_owned hg
+    refine ⟨p, ?_, hu ▸ ho, hpt, (podTask_ok hpt).2.symm⟩
+    rcases hp with h | h
+    · exact Or.inl (findPod_some h).1
+    · exact Or.inr (findPod_some h).1
+  · intro t ht
+    rcases (Furiko.JobCtlPlan.mem_finalizerTasks sp jo rj t).mp ht with h | ⟨p, hp, hpt, _, ho, _⟩
+    · exact conf t h
+    · exact ⟨p, Or.inl hp, hu ▸ ho, hpt, (podTask_ok hpt).2.symm⟩
+
+example : ∃ jo, Ex.sA.jobCache = some jo ∧ (tasksForRefs Ex.sA jo jo.job.status.tasks).map (·.name) = ["job-h-0"] :=
+  ⟨Ex.cachedOf Ex.sA, by decide +kernel, by decide +kernel⟩
+
+/-- the names a pass may add to the status: the name of a pod of the pod cache that is controlled by
+the Job (an unrecorded task is adopted), or the name of a creation request computed from the cached Job
+that is FREE on the server when the pass starts (the pass's own create call makes that pod — `NewPod`:
+controlled by the Job — or fails; a requested name that is occupied is adopted only from a cached pod
+controlled by the Job, `C09.adopt_not_duplicate`, and otherwise ends in the admission error,
+`C09.foreign_not_adopted`) -/
+def AddableName (j0 : JobObj) (s : Sys) (n : String) : Prop :=
+  ∃ jo, s.jobCache = some jo ∧
+    ((∃ p ∈ s.podCache, p.pod.name = n ∧ p.ownerUid = some j0.uid) ∨
+     (n ∉ podNames s.pods ∧ ∃ reqs, computeMissingIndexesForCreation s.d jo.job (jo.job.indexes s.d) = some reqs ∧
+        ∃ r ∈ reqs, n = taskName j0.name r.index.hash r.retryIndex))
+
+/-- `foreign_never_recorded` (every reachable state; ALL actions allowed: any fault pattern, informer
+lag, restart, clock, kubelet, external pod deletion, user kill / delete, and `createForeign` on ANY
+name, recorded ones included; index hashes `WF2`): a step adds a task name to the authoritative
+`status.tasks` only if, when the step starts, that name is
+* the name of a pod in the pod cache that is CONTROLLED BY THE JOB (the task was created by this Job's
+  controller earlier and is adopted), or
+* a task name the cached Job's creation requests ask for that is FREE on the server (the pass's own
+  `apiCreatePod` makes the pod, controlled by the Job).
+Together with `refs_monotone` (names are never removed): every name in the authoritative status was, at
+the moment it was recorded, the name of a pod created by this Job's controller — never the name of an
+object that merely exists.  A foreign pod is never adopted, whatever name it takes. -/
+theorem foreign_never_recorded {ok : Sys → Action → Prop} {j0 : JobObj} {s : Sys} (hr : Reach ok j0 s)
+    (hwf : WF2 j0 s.d) (a : Action) (hal : Allowed j0 s a) (j j' : JobObj) (hj : s.job = some j)
+    (hj' : (step s a).job = some j') (n : String) (hn : n ∈ refNames j'.job) (hnew : n ∉ refNames j.job) :
+    AddableName j0 s n := by
+  have hb := base_of_reach hr
+  have h2 := inv2_of_reach hr hwf
+  have key := jobMoves_rel (s0 := s) (a := a) (fun x y => ∀ n ∈ refNames y, n ∈ refNames x ∨ AddableName j0 s n)
+    (fun _ _ h => Or.inl h)
+    (fun _ _ _ h1 h2 n hn => by
+      rcases h2 n hn with h | h
+      · exact h1 n h
+      · exact Or.inr h)
+    (fun _ _ h n hn => by unfold refNames at hn ⊢; rw [h] at hn; exact Or.inl hn)
+    (fun jo sp hc hf n hn => by
+      have hi := h2.frame hf
+      have hcsp : sp.jobCache = some jo := hf.jobCache.trans hc
+      have hjo := (hb.seenOK jo (mem_seenVers_cache hc)).1
+      have hg := hi.seen jo (mem_seenVers_cache hcsp)
+      have hnok := sync_nok sp jo (hf.d ▸ hwf) hi.pods hjo hg n hn
+      unfold allowedNames at hnok
+      rcases List.mem_append.mp hnok with hnok | hnok
+      · rcases List.mem_append.mp hnok with hold | hreq
+        · exact Or.inl hold
+        · right
+          unfold freshReqNames at hreq
+          obtain ⟨hreq, hfree⟩ := List.mem_filter.mp hreq
+          refine ⟨jo, hc, Or.inr ⟨by rw [← hf.pods]; simpa using hfree, ?_⟩⟩
+          unfold reqNamesOf at hreq
+          rw [hf.d] at hreq
+          cases hreqs : computeMissingIndexesForCreation s.d jo.job (jo.job.indexes s.d) with
+          | none => rw [hreqs] at hreq; cases hreq
+          | some reqs =>
+            rw [hreqs] at hreq
+            obtain ⟨r, hr', hrn⟩ := List.mem_map.mp hreq
+            exact ⟨reqs, rfl, r, hr', by rw [← hrn, ← hjo.name]; rfl⟩
+      · right
+        obtain ⟨p, hp, ho, hpn⟩ := ownedNames_mem hnok
+        exact ⟨jo, hc, Or.inl ⟨p, hf.podCache ▸ hp, hpn, hjo.uid ▸ ho⟩⟩)
+    (fun _ _ _ h1 h2 n hn => by unfold refNames at hn; rw [h2] at hn; exact h1 n hn)
+    (job_moves hb a hal) j j' hj hj'
+  rcases key n hn with h | h
+  · exact absurd h hnew
+  · exact h
+
+/-- the hypotheses are met: the first pass of the example history adds `job-h-0`, a requested name that
+is free on the server -/
+example : ∃ j j', (step Ex.s0 .deliverJob).job = some j ∧ (step (step Ex.s0 .deliverJob) .work).job = some j' ∧
+    "job-h-0" ∈ refNames j'.job ∧ "job-h-0" ∉ refNames j.job :=
+  ⟨Ex.jobOf (step Ex.s0 .deliverJob), Ex.jobOf (step (step Ex.s0 .deliverJob) .work), by decide +kernel,
+    by decide +kernel, by decide +kernel, by decide +kernel⟩
+
+/-- `foreign_never_recorded_refs` (one refresh of the recorded refs — the step `updateTaskRefStatus` of a
+pass applies to the tasks `getTaskForRef` found —, every state `s`, cached Job `jo` and Job value `rj`):
+every ref after the refresh is
+* `GetTaskRef` of a task that was read from a pod (pod cache or server) CONTROLLED BY THE JOB `jo`, or
+* the lost / final-state form (`lostRef`, computed from the existing ref alone) of a ref whose task was
+  not found.
+No field of a pod that is not controlled by the Job enters a ref. -/
+theorem foreign_never_recorded_refs (s : Sys) (jo : JobObj) (rj : Job) (r : TaskRef)
+    (hr : r ∈ (updateJobTaskRefs s.clock rj (tasksForRefs s jo rj.status.tasks)).status.tasks) :
+    (∃ t p, (p ∈ s.podCache ∨ p ∈ s.pods) ∧ p.ownerUid = some jo.uid ∧ podTask p = some t ∧
+      r = getTaskRef (lookupRef rj.status.tasks t.name) t) ∨
+    (∃ ex ∈ rj.status.tasks, getTaskForRef s jo ex = none ∧ r = lostRef s.clock ex) := by
+  rcases mem_generateTaskRefs hr with ⟨t, ht, rfl⟩ | ⟨ex, hex, hnot, rfl⟩
+  · left
+    unfold tasksForRefs at ht
+    obtain ⟨ex, _, hg⟩ := List.mem_filterMap.mp ht
+    obtain ⟨p, hp, hpt, ho⟩ := getTaskForRef_owned hg
+    refine ⟨t, p, ?_, ho, hpt, rfl⟩
+    rcases hp with h | h
+    · exact Or.inl (findPod_some h).1
+    · exact Or.inr (findPod_some h).1
+  · right
+    refine ⟨ex, hex, ?_, rfl⟩
+    cases hg : getTaskForRef s jo ex with
+    | none => rfl
+    | some t =>
+      exfalso
+      apply hnot
+      refine List.mem_map.mpr ⟨t, ?_, (getTaskForRef_ok hg).2⟩
+      unfold tasksForRefs
+      exact List.mem_filterMap.mpr ⟨ex, hex, hg⟩
+
+/-- … in particular the F22 situation: when, under the name of a recorded task, the pod cache holds a
+pod that is NOT controlled by the Job and the server holds no pod controlled by the Job either (the
+task's own pod vanished; a foreign pod took its name, or nothing did), the refreshed ref of that name is
+the lost / final-state form of the recorded ref — what a vanished task gets —, whatever the foreign
+pod reports.  (With the Job's own pod on the server the cached foreign object is a cache miss and the
+task is found: `stale_foreign_cache_regression`.) -/
+theorem foreign_on_recorded_name_means_lost (s : Sys) (jo : JobObj) (rj : Job) (q : PodObj) (r : TaskRef)
+    (hq : findPod s.podCache r.name = some q) (hown : q.ownerUid ≠ some jo.uid)
+    (hsrv : ∀ p, findPod s.pods r.name = some p → p.ownerUid ≠ some jo.uid)
+    (hr : r ∈ (updateJobTaskRefs s.clock rj (tasksForRefs s jo rj.status.tasks)).status.tasks) :
+    ∃ ex ∈ rj.status.tasks, ex.name = r.name ∧ r = lostRef s.clock ex := by
+  rcases mem_generateTaskRefs hr with ⟨t, ht, rfl⟩ | ⟨ex, hex, _, rfl⟩
+  · exfalso
+    -- `t` was found for a recorded ref of that name: impossible, every object of that name is foreign
+    unfold tasksForRefs at ht
+    obtain ⟨ex, _, hg⟩ := List.mem_filterMap.mp ht
+    have hok := getTaskForRef_ok hg
+    have hname : ex.name = (getTaskRef (lookupRef rj.status.tasks t.name) t).name := by
+      rw [(getTaskRef_fields _ t).1, hok.1, hok.2]
+    rw [Furiko.Props.C09.foreign_means_absent s jo ex q (hname ▸ hq) hown (hname ▸ hsrv)] at hg
+    cases hg
+  · exact ⟨ex, hex, (lostRef_fields _ ex).1.symm, rfl⟩
+
+/-- `foreign_not_touched` (every state `s`, cached Job `jo`, Job value `rj`; any fault pattern): every
+pod DELETE call a pass issues — pending timeout, kill sweep, force delete (`syncJobTasks`), finalizer
+sweep (`handleFinishFinalizer`) — is issued for a task `t` (`c.name = t.name`) that the pass took from a
+pod CONTROLLED BY THE JOB: read for a recorded ref (pod cache or live GET), adopted from the pod
+cache, or created by the pass itself.  No delete is ever issued on behalf of a foreign pod.
+(The call addresses the pod by NAME, without a uid precondition: when the task was read from a STALE
+copy in the pod cache and a foreign pod has taken the name on the server meanwhile, the call hits
+that pod — `stale_cache_delete_hits_foreign_witness`; what is read live or created in the pass is hit
+itself.) -/
+theorem foreign_not_touched (s : Sys) (jo : JobObj) (rj : Job) (fz : Bool) :
+    (∀ c ∈ Furiko.JobCtlPlan.newCalls s (syncJobTasks s jo rj).1, c.verb = "delete" →
+      c.res = "pods" ∧ ∃ t p, t.name = c.name ∧ podTask p = some t ∧ p.ownerUid = some jo.uid) ∧
+    (∀ c ∈ Furiko.JobCtlPlan.newCalls s (handleFinalizer s jo rj fz).1,
+      c.verb = "delete" ∧ c.res = "pods" ∧ ∃ t p, t.name = c.name ∧ podTask p = some t ∧ p.ownerUid = some jo.uid) := by
+  open Furiko.JobCtlPlan in
+  refine ⟨?_, ?_⟩
+  · intro c hc hv
+    obtain ⟨hr, s1, rj1, tasks1, hcr, _, t, ht, hn, _⟩ :=
+      taskOrigin_delete s jo rj c ((syncJobTasks_origin s jo rj).2 c hc) hv
+    refine ⟨hr, ?_⟩
+    rcases syncCreateTasks_members s jo rj _ s1 rj1 tasks1 hcr t ht with h0 | ⟨p, hpt, ho⟩
+    · unfold tasks0 tasksForRefs at h0
+      obtain ⟨ex, _, hg⟩ := List.mem_filterMap.mp h0
+      obtain ⟨p, _, hpt, ho⟩ := getTaskForRef_owned hg
+      exact ⟨t, p, hn, hpt, ho⟩
+    · exact ⟨t, p, hn, hpt, ho⟩
+  · intro c hc
+    obtain ⟨l, e, hall, _⟩ := handleFinalizer_ext s jo rj fz
+    rw [e.newCalls] at hc
+    obtain ⟨hv, hr, _, _, _, t, ht, hn, _⟩ := hall c hc
+    refine ⟨hv, hr, ?_⟩
+    rcases (mem_finalizerTasks s jo rj t).mp ht with h0 | ⟨p, _, hpt, _, ho, _⟩
+    · unfold tasksForRefsConfirmed at h0
+      obtain ⟨ex, _, hg⟩ := List.mem_filterMap.mp h0
+      obtain ⟨p, _, hpt, ho⟩ := getTaskForRefConfirmed_owned hg
+      exact ⟨t, p, hn, hpt, ho⟩
+    · exact ⟨t, p, hn, hpt, ho⟩
+
+/-- the hypotheses are met: the finalizer pass of `Ex.sE` deletes the Job's own pod `job-h-0` -/
+example : Ex.sE.calls.map (fun c => (c.verb, c.res, c.name, c.out)) = [("delete", "pods", "job-h-0", "ok")] := by
+  decide +kernel
+
+/-- the hypotheses of `foreign_on_recorded_name_means_lost` are met in the state before the last pass of
+the F22 run (`Ex.sX` without its final `work`): the pod cache holds the foreign pod under the recorded
+name `job-h-0`, and the refreshed ref of that name is finished (lost) -/
+example :
+    let s := runActs Ex.sA (Ex.runX.take 5)
+    let jo := Ex.cachedOf s
+    (∃ q, findPod s.podCache "job-h-0" = some q ∧ q.ownerUid ≠ some jo.uid) ∧
+    s.pods.map (fun p => (p.pod.name, p.ownerUid)) = [("job-h-0", some "other-uid")] ∧
+    (updateJobTaskRefs s.clock jo.job (tasksForRefs s jo jo.job.status.tasks)).status.tasks.map
+      (fun r => (r.name, r.status.state, r.finishTimestamp.isSome)) = [("job-h-0", .deletedFinalStateUnknown, true)] :=
+  ⟨⟨Ex.foreignPod, by decide +kernel, by decide +kernel⟩, by decide +kernel, by decide +kernel⟩
+
+/-- F22 regression: the run of the former witness `foreign_recorded_witness` — `job-h-0` is recorded for
+the Job's own pod; the pod vanishes; a foreign pod (controlled by `other-uid`, phase Succeeded) is
+created under that name; its events are delivered; a pass runs.  Before the repair that pass took the
+foreign pod for the task and reported the Job Finished / Success.  Now the ref is LOST
+(`DeletedFinalStateUnknown`, finished at the pass's clock), the Job is NOT finished (the index goes to
+retry back-off: attempt 0 of 2 is spent), the foreign pod is still on the server, untouched, and the
+pass issued no pod call. -/
+theorem f22_regression :
     Reach anyAction Ex.job Ex.sX ∧
-    Ex.sX.pods.map (fun p => (p.pod.name, p.ownerUid)) = [("job-h-0", some "other-uid")] ∧
-    Ex.sX.job.map (fun j => (refNames j.job, j.job.status.condition.finished.map (·.result))) =
-      some (["job-h-0"], some .success) :=
-  ⟨Ex.sX_reach, by decide +kernel, by decide +kernel⟩
+    Ex.sX.pods.map (fun p => (p.pod.name, p.ownerUid, p.pod.deletionTimestamp)) =
+      [("job-h-0", some "other-uid", none)] ∧
+    Ex.sX.job.map (fun j => (j.job.status.tasks.map (fun r => (r.name, r.status.state, r.status.result,
+        r.finishTimestamp.isSome)), j.job.status.condition.finished.isSome, j.job.status.phase)) =
+      some ([("job-h-0", .deletedFinalStateUnknown, .none, true)], false, phaseRetryBackoff) ∧
+    Ex.sX.calls.map (fun c => (c.verb, c.res, c.name, c.out)) = [("update", "jobs", "job", "ok")] :=
+  ⟨Ex.sX_reach, by decide +kernel, by decide +kernel, by decide +kernel⟩
 
-/-- `recorded_refs_wellformed_partial` (histories WITHOUT foreign pods, index hashes pairwise distinct
-and free of `-`; every other action allowed): in every reachable state every pod on the server and in
-the pod cache is controlled by the Job and named after its index and retry number, and the
-authoritative status lists pairwise distinct names, each ref carrying one of the Job's indexes and the
-name `taskName job.name hash retryIndex` of ITS index and retry number (so `(hash, retry)` identifies
-the ref: never two refs for one attempt), and `createdTasks = |tasks|`. -/
-theorem recorded_refs_wellformed_partial {ok : Sys → Action → Prop} (hok : ∀ s a, ok s a → noForeign s a)
+/-- … and with ONE attempt (`Ex.job1`) the same run ends the Job Finished / FAILED (its only task is
+lost) — not Success. -/
+theorem f22_regression_one_attempt :
+    Reach anyAction Ex.job1 Ex.tX ∧
+    Ex.tX.pods.map (fun p => (p.pod.name, p.ownerUid)) = [("job-h-0", some "other-uid")] ∧
+    Ex.tX.job.map (fun j => (refNames j.job, j.job.status.condition.finished.map (·.result))) =
+      some (["job-h-0"], some .failed) :=
+  ⟨Ex.tX_reach, by decide +kernel, by decide +kernel⟩
+
+/-! ### a STALE foreign object in the pod cache is a cache miss
+
+A first form of the repair answered "task absent" as soon as the CACHED object of the ref's name was not
+controlled by the Job, without the live GET that confirms every other absence of an unfinished task
+(repair of F8): a foreign pod that had already been removed from the server, but whose deletion had not
+reached the pod cache yet, hid the Job's own, live task of that name (the task was recorded lost while
+its pod existed).  The repair as built treats such a cached object as a cache MISS: the live GET finds
+the Job's own pod (`C09.existing_task_never_lost` needs no hypothesis on foreign cached objects). -/
+
+/-- regression (one index `h`, one attempt): a foreign pod `job-h-0` exists before the Job's first pass
+and reaches the pod cache; it is removed from the server (its deletion event is still undelivered);
+the first pass creates the Job's own `job-h-0` (the name is free) and records it; the next pass finds
+the stale FOREIGN object in the pod cache, treats it as a cache miss, and finds the Job's own pod by the
+live GET: the task stays `Starting`, the Job is not finished, nothing is written. -/
+theorem stale_foreign_cache_regression :
+    Reach anyAction Ex.job1 Ex.tY ∧
+    Ex.tY.pods.map (fun p => (p.pod.name, p.ownerUid, p.pod.isFinished, p.pod.deletionTimestamp)) =
+      [("job-h-0", some "u", false, none)] ∧
+    Ex.tY.podCache.map (fun p => (p.pod.name, p.ownerUid)) = [("job-h-0", none)] ∧
+    Ex.tY.job.map (fun j => (j.job.status.tasks.map (fun r => (r.name, r.status.state, r.finishTimestamp)),
+        j.job.status.condition.finished.map (·.result))) =
+      some ([("job-h-0", .starting, none)], none) ∧
+    Ex.tY.calls = [] :=
+  ⟨Ex.tY_reach, by decide +kernel, by decide +kernel, by decide +kernel, by decide +kernel⟩
+
+/-- witness (outside the repair of F22: pod deletes are issued by NAME, without a uid precondition):
+the Job's own `job-h-0` is in the pod cache; it vanishes from the server and a foreign pod (controlled
+by `other-uid`) takes its name, both events undelivered; the user deletes the Job; the finalizer pass
+reads the task from the STALE cached copy — a pod controlled by the Job, `foreign_not_touched` — and its
+delete call hits the foreign pod, which now carries a deletion timestamp.  (The harness counts such
+deletes as `jc.observed.foreign-deleted-through-stale-pod-cache`: observed under pod-cache lag, not
+claimed.) -/
+theorem stale_cache_delete_hits_foreign_witness :
+    Reach anyAction Ex.job Ex.sZ ∧
+    Ex.sZ.podCache.map (fun p => (p.pod.name, p.ownerUid)) = [("job-h-0", some "u")] ∧
+    Ex.sZ.calls.map (fun c => (c.verb, c.res, c.name, c.out)) =
+      [("delete", "pods", "job-h-0", "ok"), ("update", "jobs", "job", "ok")] ∧
+    Ex.sZ.pods.map (fun p => (p.pod.name, p.ownerUid, p.pod.deletionTimestamp.isSome)) =
+      [("job-h-0", some "other-uid", true)] :=
+  ⟨Ex.sZ_reach, by decide +kernel, by decide +kernel, by decide +kernel⟩
+
+/-- `recorded_refs_wellformed` (ALL actions allowed, foreign pods on any name included — before the
+repair of F22 this was `recorded_refs_wellformed_partial`, proved only for histories without foreign
+pods; index hashes pairwise distinct and free of `-`): in every reachable state every pod on the server
+and in the pod cache that is CONTROLLED BY THE JOB is named after its index and retry number
+(`PodOK2`: `ownerUid = some job.uid → PodNameOK ∧ creationTimestamp set`; a pod that is not controlled by
+the Job is unconstrained), and the authoritative status lists pairwise distinct names, each ref carrying
+one of the Job's indexes and the name `taskName job.name hash retryIndex` of ITS index and retry number
+(so `(hash, retry)` identifies the ref: never two refs for one attempt), and `createdTasks = |tasks|`. -/
+theorem recorded_refs_wellformed {ok : Sys → Action → Prop}
     {j0 : JobObj} {s : Sys} (hr : Reach ok j0 s) (hwf : WF2 j0 s.d) :
     (∀ p ∈ s.pods, PodOK2 j0 s.d p) ∧ (∀ p ∈ s.podCache, PodOK2 j0 s.d p) ∧
     ∀ j, s.job = some j → (refNames j.job).Nodup ∧ (∀ r ∈ j.job.status.tasks, RefOK j0 s.d r) ∧
       j.job.status.createdTasks = j.job.status.tasks.length := by
-  have hi := inv2_of_reach hok hr hwf
+  have hi := inv2_of_reach hr hwf
   exact ⟨hi.pods.pods, hi.pods.cache, fun j hj => ⟨(hi.job j hj).nodup, (hi.job j hj).refs, (hi.job j hj).created⟩⟩
 
-example : WF2 Ex.job Ex.sC.d ∧ Reach noForeign Ex.job Ex.sC ∧ (Ex.sC.job.map (fun j => refNames j.job)) = some ["job-h-0"] :=
-  ⟨⟨by decide +kernel, by decide +kernel⟩, Ex.sC_reach_nf, by decide +kernel⟩
+/-- … in a state with a foreign pod on a recorded name -/
+example : WF2 Ex.job Ex.sX.d ∧ Reach anyAction Ex.job Ex.sX ∧ (Ex.sX.job.map (fun j => refNames j.job)) = some ["job-h-0"] :=
+  ⟨⟨by decide +kernel, by decide +kernel⟩, Ex.sX_reach, by decide +kernel⟩
 
 /-- `finished_ref_justified_partial` (one refresh of the recorded refs, every state `s` and Job value
 `rj` — the step `updateTaskRefStatus` of a pass applies to the tasks `getTaskForRef` found): a ref that
 carries a finish timestamp after the refresh
 * carried one before, or
-* its task was found (pod cache, or live GET) and that pod reports a finish time (terminal phase), or
-* its task was NOT found: `getTaskForRef` returned nothing, which for an unfinished ref means the name
-  is absent from the pod cache AND from the server (`C09.existing_task_never_lost`).
+* its task was found (pod cache, or live GET; a pod controlled by the Job, `foreign_never_read`) and
+  that pod reports a finish time (terminal phase), or
+* its task was NOT found: `getTaskForRef` returned nothing, which for an unfinished ref means that no
+  pod of that name controlled by the Job is in the pod cache or on the server
+  (`C09.existing_task_never_lost`).
 Restriction: this is the one-step form; it does not follow the ref through the other rewrites of a
-pass (deletion markers keep timestamps, `C11Hist.timestamps_never_cleared_partial`). -/
-theorem finished_ref_justified_partial (s : Sys) (rj : Job) (r : TaskRef)
-    (hr : r ∈ (updateJobTaskRefs s.clock rj (tasksForRefs s rj.status.tasks)).status.tasks)
+pass (deletion markers keep timestamps, `C11Hist.timestamps_never_cleared`). -/
+theorem finished_ref_justified_partial (s : Sys) (jo : JobObj) (rj : Job) (r : TaskRef)
+    (hr : r ∈ (updateJobTaskRefs s.clock rj (tasksForRefs s jo rj.status.tasks)).status.tasks)
     (hfin : r.finishTimestamp.isSome = true) :
     (∃ ex ∈ rj.status.tasks, ex.name = r.name ∧ ex.finishTimestamp.isSome = true) ∨
-    (∃ ex ∈ rj.status.tasks, ∃ t, ex.name = r.name ∧ getTaskForRef s ex = some t ∧
+    (∃ ex ∈ rj.status.tasks, ∃ t, ex.name = r.name ∧ getTaskForRef s jo ex = some t ∧
       t.ref.finishTimestamp.isSome = true) ∨
-    (∃ ex ∈ rj.status.tasks, ex.name = r.name ∧ getTaskForRef s ex = none) := by
+    (∃ ex ∈ rj.status.tasks, ex.name = r.name ∧ getTaskForRef s jo ex = none) := by
   rcases mem_generateTaskRefs hr with ⟨t, ht, rfl⟩ | ⟨ex, hex, hnot, rfl⟩
   · unfold tasksForRefs at ht
     obtain ⟨ex, hex, hget⟩ := List.mem_filterMap.mp ht
@@ -162,7 +453,7 @@ theorem finished_ref_justified_partial (s : Sys) (rj : Job) (r : TaskRef)
   · by_cases hexf : ex.finishTimestamp.isSome = true
     · exact Or.inl ⟨ex, hex, (lostRef_fields _ ex).1.symm, hexf⟩
     · refine Or.inr (Or.inr ⟨ex, hex, (lostRef_fields _ ex).1.symm, ?_⟩)
-      cases hg : getTaskForRef s ex with
+      cases hg : getTaskForRef s jo ex with
       | none => rfl
       | some t =>
         exfalso
@@ -173,7 +464,7 @@ theorem finished_ref_justified_partial (s : Sys) (rj : Job) (r : TaskRef)
         exact List.mem_filterMap.mpr ⟨ex, hex, hg⟩
 
 example : ∃ r ∈ (updateJobTaskRefs Ex.sA.clock (Ex.cachedOf Ex.sA).job
-    (tasksForRefs Ex.sA (Ex.cachedOf Ex.sA).job.status.tasks)).status.tasks, r.finishTimestamp = none :=
+    (tasksForRefs Ex.sA (Ex.cachedOf Ex.sA) (Ex.cachedOf Ex.sA).job.status.tasks)).status.tasks, r.finishTimestamp = none :=
   ⟨_, List.mem_cons_self, by decide +kernel⟩
 
 end Furiko.Props.C09Hist
